@@ -12,7 +12,7 @@
       [paths_unique root]         HYPOTHESIS "no two requirement names share a path" (needed where get returns
                                   the root's requirement list unchanged; see the report);
       [u_fuel], [e_fuel]          explicit sufficient fuels (number of nodes + constant).  *)
-From Dawn Require Import Mvs.Spec Mvs.Proofs_Names Mvs.Proofs_C11 Mvs.Proofs_Idem2 Mvs.Proofs_Down.
+From Dawn Require Import Mvs.Spec Mvs.Proofs_Names Mvs.Proofs_C11 Mvs.Proofs_Idem2 Mvs.Proofs_Down Mvs.Proofs_Query.
 
 (** Tidy returns requirements whose build list equals the original one (and both exist) *)
 Theorem tidy_preserves_build_list :
@@ -56,6 +56,35 @@ Theorem upgrade_resolves :
       no_lower bl0 bl /\ (exists w, In (fst version, w) bl /\ vle (snd version) w = true).
 Proof. exact Proofs_C11.get_upgrade_versions_sound. Qed.
 Print Assumptions upgrade_resolves.
+
+(** The two queries that are defined relative to the current selection never resolve below it, whatever the
+    selected version is (a tag, or the pseudo-version of an untagged commit ahead of every tag of its series):
+    get never takes its mvs.Downgrade branch for a patch or upgrade query *)
+Theorem patch_upgrade_not_below_selection :
+  forall U bl q k version,
+    match k with QUpgrade | QPatch => True | _ => False end ->
+    resolve_query U bl q k = Ok version ->
+    forall cur, find_path (fst version) bl = Some cur -> sem_cmp cur (snd version) <> Gt.
+Proof. exact Proofs_Query.patch_upgrade_not_below_selection. Qed.
+Print Assumptions patch_upgrade_not_below_selection.
+
+(** ... hence get by a patch or upgrade query lowers no project and has the project at the resolved version or
+    above: upgrade_contains_and_no_lower without its "not a downgrade" premise *)
+Theorem patch_upgrade_lowers_nothing :
+  forall pick U root q k c',
+    wf_universe U -> wf_reqs (map snd root) -> names_unique root -> paths_unique root ->
+    match k with QUpgrade | QPatch => True | _ => False end ->
+    apply_op pick U root (OpGet q k) = Ok c' ->
+    exists bl0 version,
+      build_list pick (e_fuel U (map snd root)) U (map snd root) = Ok bl0 /\
+      resolve_query U bl0 q k = Ok version /\
+      (forall cur, find_path (fst version) bl0 = Some cur -> sem_cmp cur (snd version) <> Gt) /\
+      (wf_node version ->
+       forall pick1 fuel1 bl1,
+         (u_fuel U (map snd c') <= fuel1)%nat -> dawn_build_list pick1 fuel1 U c' = Ok bl1 ->
+         no_lower bl0 bl1 /\ exists w, In (fst version, w) bl1 /\ vle (snd version) w = true).
+Proof. exact Proofs_Query.patch_upgrade_lowers_nothing. Qed.
+Print Assumptions patch_upgrade_lowers_nothing.
 
 (** UpgradeAll: the new build list exists, lowers no project, and contains every project at (or above) the
     version Reqs.Upgrade resolves for it *)
